@@ -40,6 +40,7 @@ def correspondence(ctx):
         cases.append(f'prof|op|enforce|f|b|{hexs(s_)}|')
     for s_ in straddle_strings(maxn=24 if ctx.tier == 'quick' else 130):
         cases.append(f'prof|op|enforce|f|b|{hexs(s_)}|')
+    cases += fuzz_cases(ctx, {2, 7, 10})      # coverage-guided search of the tree under check (only when the source changed / thorough)
     res = run_cases(cases, ctx.work)
     zset = set(zs)
 
